@@ -8,6 +8,10 @@ from . import interp as I
 from . import lib as L
 
 
+import os
+DEBUG = bool(os.environ.get('VERIF_DEBUG'))
+
+
 class Outcome:
     def __init__(self, kind, value=None, exc=None, msg=''):
         self.kind = kind            # 'return' | 'raise'
@@ -59,6 +63,7 @@ class VC:
     # -- path lifecycle ---------------------------------------------------------------------
     def begin_path(self, prefix):
         CTX.reset()
+        _SYM_CACHE.clear()
         self.prefix = list(prefix)
         self.trace = []
         self.alternatives = []
@@ -156,13 +161,18 @@ class VC:
             neg = z3.BoolVal(True)
         else:
             neg = z3.Not(cond.t)
-        axs = L.sum_axioms()
+        rel = set(term_syms(neg))
+        for h in self.pc_terms:
+            rel |= term_syms(h)
+        axs = L.sum_axioms(rel) if CTX.sums else []
         hyps = list(self.pc_terms) + list(CTX.side) + [ax.t for ax in axs]
         r, backend, model, reason = self._solve(hyps, neg)
         status = 'proved' if r == z3.unsat else ('failed' if r == z3.sat else 'unknown')
         self.results.append(ObligationResult(name=name, kind=kind, status=status, time=round(time.time() - t0, 4),
                                              model=model, path=self.paths, contract=self.contract, mode=self.mode,
                                              reason=reason if status == 'unknown' else note, backend=backend))
+        if DEBUG:
+            print(f'  [{status}] {round(time.time() - t0, 2)}s {name} ({backend})', flush=True)
         return status == 'proved'
 
     def _solve(self, hyps, neg):
@@ -254,7 +264,7 @@ class VC:
                 model = {}
                 for m in re.finditer(r'\(define-fun (\S+) \(\) (?:Int|Real|Bool) (.+)\)\s*$', p.stdout, re.M):
                     nm = m.group(1).strip('|')
-                    if not (nm.startswith('d!') or nm.startswith('jext!')):
+                    if '!' not in nm or nm.startswith('wallclock'):
                         model[nm] = m.group(2)
                     if len(model) > 60:
                         break
@@ -272,7 +282,7 @@ class VC:
             for d in m.decls():
                 nm = d.name()
                 if d.arity() == 0:
-                    if nm.startswith('d!') or nm.startswith('jext!'):
+                    if '!' in nm and not nm.startswith('wallclock'):
                         continue
                     out[nm] = str(m[d])
                     if len(out) > 60:
@@ -280,6 +290,13 @@ class VC:
         except Exception:
             pass
         return out
+
+    def lemma(self, name, stmt):
+        """Ghost lemma: proved as its own obligation, then available as a fact (prompting the solver)."""
+        ok = self.ensure(name, stmt, kind='lemma')
+        if ok:
+            self.assume(stmt)
+        return ok
 
     def cover(self, name):
         """Reachability/vacuity guard: the current path condition is satisfiable."""
@@ -316,8 +333,9 @@ _SYM_CACHE = {}
 def term_syms(t):
     """Names of the uninterpreted constants/functions occurring in a z3 term."""
     key = t.get_id()
-    if key in _SYM_CACHE:
-        return _SYM_CACHE[key]
+    hit = _SYM_CACHE.get(key)
+    if hit is not None and hit[0].eq(t):     # ids are only unique among live terms: keep the term alive
+        return hit[1]
     out = set()
     seen = set()
     stack = [t]
@@ -334,9 +352,9 @@ def term_syms(t):
             stack.extend(x.children())
         elif z3.is_quantifier(x):
             stack.append(x.body())
-    _SYM_CACHE[key] = out
-    if len(_SYM_CACHE) > 200000:
+    if len(_SYM_CACHE) > 100000:
         _SYM_CACHE.clear()
+    _SYM_CACHE[key] = (t, out)
     return out
 
 
